@@ -203,10 +203,15 @@ class Shard:
 
 def load_known_findings() -> list[dict]:
     p = os.path.join(VERIF_ROOT, "known_findings.json")
-    if not os.path.exists(p):
-        return []
     with open(p) as f:
-        return json.load(f)["findings"]
+        out = list(json.load(f)["findings"])
+    frag = os.path.join(VERIF_ROOT, "known_findings.d")
+    if os.path.isdir(frag):  # per-property fragments (merged into known_findings.json by tools/merge_findings.py)
+        for n in sorted(os.listdir(frag)):
+            if n.endswith(".json"):
+                with open(os.path.join(frag, n)) as f:
+                    out.extend(json.load(f)["findings"])
+    return out
 
 
 def short_tb(e: BaseException, limit: int = 8) -> str:
